@@ -86,7 +86,7 @@ ALL_OPS = [  # (op, noreply variants)
     ("get_many", (None,)), ("gets_many", (None,)), ("delete", (None, False)), ("delete_many", (None, False)),
     ("incr", (None, True)), ("decr", (None, True)), ("touch", (None, False)), ("flush_all", (None, False)),
     ("version", (None,)), ("stats", (None,)), ("raw_command", (None,)), ("cache_memlimit", (None,)),
-    ("quit", (None,)), ("flush_all_delay", (None, False)), ("set_many_twin", (None, False)),
+    ("quit", (None,)), ("flush_all_delay", (None, False)), ("set_many_twin", (None, False)), ("shutdown", (None,)),
 ]
 
 
